@@ -93,7 +93,18 @@ def postprocess_contract(func, fill_kind, table):
         if not isinstance(res, SSeq):
             return [("returns_the_result_array", z3.BoolVal(False))]
         g, i = fresh("g"), fresh("i")
-        was_seen = lambda t: z3.Exists([i], z3.And(in_range(i, 0, seen.length), seen.at(i) == t))
+        # "seen" through the membership function of the sequence of seen codes (a named function with witness axioms, the one the
+        # model of np.isin uses): keeps the goals free of existential quantifiers
+        mem_seen = seq_member(ex, seen)
+        was_seen = lambda t: mem_seen(t)
+        # when the result was produced by the scatter store result[..., groups[mask]] = fill, name the position of an unseen group
+        # among the stored positions (its rank among the unseen ones): gives the solver the witness instead of a search
+        sc = getattr(res, "scattered", None)
+        hint = lambda t: z3.BoolVal(True)
+        if sc is not None and getattr(sc[1], "selected_from", None) is not None and getattr(sc[1].selected_from[1], "_nz", None) is not None:
+            idx_, mask_ = sc[1], sc[1].selected_from[1]
+            m_, P_, R_ = mask_._nz
+            hint = lambda t: z3.And(mask_.at(t), in_range(R_(t), 0, idx_.length), idx_.at(R_(t)) == t)
         cl = [("length_unchanged", res.length == size)]
         if func not in table:
             cl.append(("passed_through_untouched", forall(g, z3.Implies(in_range(g, 0, size), res.at(g) == r0.at(g)))))
@@ -103,7 +114,7 @@ def postprocess_contract(func, fill_kind, table):
             cl.append(("no_fill_given_nothing_changes", forall(g, z3.Implies(in_range(g, 0, size), res.at(g) == r0.at(g)))))
         else:
             d = as_val(table[func])
-            cl.append(("unseen_groups_get_a_fill_that_differs_from_the_default", forall(g, z3.Implies(z3.And(in_range(g, 0, size), z3.Not(was_seen(g)), fill != d), res.at(g) == fill))))
+            cl.append(("unseen_groups_get_a_fill_that_differs_from_the_default", forall(g, z3.Implies(z3.And(in_range(g, 0, size), z3.Not(was_seen(g)), fill != d), z3.And(hint(g), res.at(g) == fill)))))
             cl.append(("a_fill_equal_to_the_default_changes_nothing", z3.Implies(fill == d, forall(g, z3.Implies(in_range(g, 0, size), res.at(g) == r0.at(g))))))
         return cl
 
